@@ -23,6 +23,7 @@ GEN_INVS = [
     "SortedIndicesRejected",
     "DuplicateRejected",
     "ClassesOK",
+    "ShrinkLaws",
     "Emit",
 ]
 GEN_NAMES = ["tetrahedron", "cube", "octahedron"]
@@ -245,6 +246,87 @@ def build_cases(ctx, rng, thorough, idx_cases, behaviours, sims):
     cub = catalog.entries(name="cuboctahedron", rot=0, cut=0)[0]
     for j, prov in enumerate(["ugrid", "ugrid_ec", "ugrid_plain", "ugrid", "ugrid_ec", "ugrid_plain"]):
         add("ugrid:%s:%d" % (prov, j), cat_src(cub), prov, {"t": "idx", "kind": ["face", "node", "edge", "face", "edge", "node"][j], "idx": [[5, 2, 9], [3, 0], [1, 7], [0], [4], [6, 1, 2]][j], "form": "list"}, data=data_spec(j))
+    # H. Cartesian centre coordinates: the k-d tree path of nearest_neighbor / bounding_circle
+    for name, rot in [("cuboctahedron", 0), ("truncated_octahedron", 5), ("tetrakis_cube", 0), ("rhombicuboctahedron", 17)]:
+        e = catalog.entries(name=name, rot=rot, cut=0)[0]
+        centres = [list(v) for v in e["nodes"][:: max(1, len(e["nodes"]) // 3)]] + GENERIC_CENTRES
+        for kind in (["node", "face", "edge"] if name in X.UNIFORM else ["node"]):
+            for j in range(6 if thorough else 2):
+                for t in ("knn", "circle"):
+                    k += 1
+                    add("cart:%s:%s:%s:%d" % (catalog.eid(e), kind, t, j), cat_src(e), provs[k % 2], {"t": t, "kind": kind, "c": centres[rng.randrange(len(centres))], "pick": rng.randrange(1000), "cart": True}, **({"data": data_spec(k)} if k % 3 == 0 else {}))
+    # I. sources that SUPPLY their face / edge centres (off-centroid lattice points), incl. mixed-norm meshes
+    for name, rot, cut in [("tetrakis_cube", 0, 0), ("rhombic_dodecahedron", 5, 0), ("cuboctahedron", 5, 3), ("truncated_cube", 0, 0)]:
+        e = catalog.entries(name=name, rot=rot, cut=cut)[0]
+        centres = [list(v) for v in e["nodes"][:: max(1, len(e["nodes"]) // 3)]] + GENERIC_CENTRES
+        for kind in ("face", "edge"):
+            for j in range(8 if thorough else 3):
+                k += 1
+                add("supc:box:%s:%s:%d" % (catalog.eid(e), kind, j), cat_src(e), "supplied_c", {"t": "box", "kind": kind, "pick": [rng.randrange(1000) for _ in range(4)]}, **({"data": data_spec(k)} if k % 3 == 0 else {}))
+            for j in range(6 if thorough else 2):
+                for t in ("circle", "knn"):
+                    k += 1
+                    add("supc:%s:%s:%s:%d" % (t, catalog.eid(e), kind, j), cat_src(e), "supplied_c", {"t": t, "kind": kind, "c": centres[rng.randrange(len(centres))], "pick": rng.randrange(1000), "cart": bool(j % 2)})
+        k += 1
+        add("supc:idx:%s" % catalog.eid(e), cat_src(e), "supplied_c", {"t": "idx", "kind": "edge", "idx": [2, 0], "form": "list"}, data=data_spec(k))
+    # J. MPAS-dialect sources: 1-based zero-padded tables, radians, their own edge numbering and end order
+    for name, rot, cut in [("cuboctahedron", 0, 0), ("truncated_octahedron", 5, 2), ("tetrakis_cube", 0, 0)]:
+        e = catalog.entries(name=name, rot=rot, cut=cut)[0]
+        src = cat_src(e)
+        n = {"face": len(e["faces"]), "node": len(e["nodes"]), "edge": e["n_edge"]}
+        centres = [list(v) for v in e["nodes"][:: max(1, len(e["nodes"]) // 3)]] + GENERIC_CENTRES
+        for kind in ("face", "node", "edge"):
+            for j, idx in enumerate([[rng.randrange(n[kind])], rng.sample(range(n[kind]), 3), list(range(n[kind]))[::-1]] + [rng.sample(range(n[kind]), 4) for _ in range(4 if thorough else 0)]):
+                k += 1
+                add("mpas:idx:%s:%s:%d" % (catalog.eid(e), kind, j), src, "mpas", {"t": "idx", "kind": kind, "idx": idx, "form": FORMS[j % 2]}, data=data_spec(k))
+            if kind == "node" or name in X.UNIFORM:
+                for j in range(4 if thorough else 1):
+                    k += 1
+                    add("mpas:box:%s:%s:%d" % (catalog.eid(e), kind, j), src, "mpas", {"t": "box", "kind": kind, "pick": [rng.randrange(1000) for _ in range(4)]}, data=data_spec(k))
+                    add("mpas:circle:%s:%s:%d" % (catalog.eid(e), kind, j), src, "mpas", {"t": "circle", "kind": kind, "c": centres[rng.randrange(len(centres))], "pick": rng.randrange(1000), "cart": bool(j % 2)})
+                    add("mpas:knn:%s:%s:%d" % (catalog.eid(e), kind, j), src, "mpas", {"t": "knn", "kind": kind, "c": centres[rng.randrange(len(centres))], "pick": rng.randrange(1000)})
+        for j in range(3):
+            add("mpas:xsec:%s:%d" % (catalog.eid(e), j), src, "mpas", {"t": "lat", "kind": "face", "pick": j, "mode": ["gap", "at", "gap"][j]}, threads=X.THREADS, data=data_spec(j))
+    # K. fine meshes (faces of 1e-3 .. 1e-5 rad): caps of catalogue meshes shrunk by the exact integer map.  About a
+    #    pole the map keeps longitudes and the order of latitudes (boxes, parallels); about any centre it keeps the
+    #    order of distances from that centre (circles, k nearest); index selections are scale-free anyway.
+    Ms = [1000, 10000, 100000]
+    fine = []
+    for name, rot in [("rhombicuboctahedron", 0), ("truncated_cube", 0), ("tetrakis_cube", 0), ("rhombicuboctahedron", 9), ("tetrakis_cube", 13)]:
+        for pole in ([0, 0, 1], [0, 0, -1]):
+            fine.append(({"t": "fine", "eid": "%s/r%d/c0" % (name, rot), "centre": pole, "M": Ms[len(fine) % 3]}, True))
+    for name, rot in [("cuboctahedron", 0), ("truncated_octahedron", 5), ("rhombicuboctahedron", 3), ("tetrakis_cube", 7)]:
+        e = catalog.entries(name=name, rot=rot, cut=0)[0]
+        for c in ([list(e["nodes"][1])] + [[sum(e["nodes"][v][i] for v in e["faces"][2]) for i in range(3)]] + [[3, -1, 2]]):
+            fine.append(({"t": "fine", "eid": catalog.eid(e), "centre": c, "M": Ms[len(fine) % 3]}, False))
+    if not thorough:
+        fine = fine[::2]
+    for fi, (src, polar) in enumerate(fine):
+        geo = X.source_geometry(src)
+        if len(geo["faces"]) < 2:
+            continue
+        n = {"face": len(geo["faces"]), "node": len(geo["nodes"]), "edge": len(X.own_edges(geo["faces"], 0))}
+        c = src["centre"]
+        tag = "%s:%s:M%d" % (src["eid"], "".join("%+d" % x for x in c), src["M"])
+        for kind in ("face", "node", "edge"):
+            k += 1
+            add("fine:idx:%s:%s" % (tag, kind), src, provs[k % 2], {"t": "idx", "kind": kind, "idx": rng.sample(range(n[kind]), min(n[kind], 3)), "form": "list"}, data=data_spec(k))
+        for j in range(4 if thorough else 2):
+            for kind, prov in (("node", provs[j % 2]), ("face", "supplied_c"), ("edge", "supplied_c")):
+                k += 1
+                add("fine:circle:%s:%s:%d" % (tag, kind, j), src, prov, {"t": "circle", "kind": kind, "c": c, "pick": rng.randrange(1000), "cart": bool(j % 2)}, **({"data": data_spec(k)} if k % 3 == 0 else {}))
+                add("fine:knn:%s:%s:%d" % (tag, kind, j), src, prov, {"t": "knn", "kind": kind, "c": c, "pick": rng.randrange(1000), "cart": not bool(j % 2)})
+                if polar:
+                    add("fine:box:%s:%s:%d" % (tag, kind, j), src, prov, {"t": "box", "kind": kind, "pick": [rng.randrange(1000) for _ in range(4)]})
+            if polar:
+                for mode in ("gap", "at"):
+                    add("fine:xsec:%s:%s:%d" % (tag, mode, j), src, provs[j % 2], {"t": "lat", "kind": "face", "pick": j, "mode": mode}, threads=X.THREADS, **({"data": data_spec(j)} if j % 2 else {}))
+                    add("fine:faces_at:%s:%s:%d" % (tag, mode, j), src, provs[(j + 1) % 2], {"t": "lat", "kind": "face", "pick": j, "mode": mode, "faces_only": True}, threads=X.THREADS)
+    # L. repeated FACE indices: outside the quantifier ("all index sets ..."; for node / edge selections repeats
+    #    cannot arise in the result).  Recorded for information only, never judged.
+    cub = catalog.entries(name="cube", rot=0, cut=0)[0]
+    add("repeat:face:0", cat_src(cub), "supplied", {"t": "idx", "kind": "face", "idx": [1, 1, 0], "form": "list"}, observe=True)
+    add("repeat:face:1", cat_src(cub), "derived", {"t": "idx", "kind": "face", "idx": [4, 2, 4], "form": "array"}, observe=True, data=data_spec(0))
     return cases
 
 
@@ -292,7 +374,7 @@ def run(ctx):
     cases = build_cases(ctx, rng, thorough, idx_cases, behaviours, sims)
     if not thorough:
         # quick tier: thin the large families by a fixed stride (deterministic)
-        cap = {"box": 300, "circle": 150, "knn": 100, "xsec": 150, "faces_at": 150, "hist": 450}
+        cap = {"box": 300, "circle": 150, "knn": 100, "xsec": 150, "faces_at": 150, "hist": 450, "fine": 160}
         fam = {}
         for c in cases:
             fam.setdefault(c["id"].split(":")[0], []).append(c)
@@ -311,7 +393,12 @@ def run(ctx):
     if bad:
         raise Machinery("%d cases could not be replayed, e.g. %s: %s" % (len(bad), bad[0]["id"], bad[0]["_machinery"]))
     skipped_replay = {r["id"]: r["_skip"] for r in recs if "_skip" in r}
-    good = [r for r in recs if "_skip" not in r]
+    observed = [r for r in recs if by_id[r["id"]].get("observe")]
+    ctx.note(
+        "repeated_face_indices_observed_not_judged",
+        {json.dumps(by_id[r["id"]]["op"]["idx"]): ("raises" if r.get("err") else {"recorded_source_indices": r["res"]["src"], "n_face": len(r["res"]["fn"])}) for r in observed if "_skip" not in r},
+    )
+    good = [r for r in recs if "_skip" not in r and not by_id[r["id"]].get("observe")]
     failed, mach, skipped, drift = judge(ctx, good)
     if mach:
         k = sorted(mach)[0]
@@ -381,7 +468,10 @@ def run(ctx):
         "a parallel equal to a node latitude is judged only when the implementation's jitted scan itself reports that node's stored z as lying exactly on it",
         "numba thread counts above the machine's NUMBA_NUM_THREADS are clipped; interleavings beyond T<=3, E<=4 are covered by the model only",
         "result node positions are matched to source positions with 1e-9; float equalities use 1e-12 (DESIGN 3.3)",
-        "index lists with repeated FACE indices are outside the quantifier ('index sets') and not generated",
+        "index lists with repeated FACE indices are outside the quantifier ('all index sets'): two are replayed and what the implementation does is noted (it keeps the repeats), without a verdict",
+        "fine meshes are exact shrink images of lattice caps: classes decided on the lattice are used only where the map provably keeps them (SubsetGen ShrinkLaws; judge precondition FineOK); a parallel is judged only if its z clears every stored node z by 1e-12",
+        "a Cartesian centre is routed to the k-d tree, whose metric is the chord: bounding_circle then gets its radius as a chord length (the accessor documents degrees for longitude-latitude centres only); nearest_neighbor needs no unit",
+        "face / edge centres SUPPLIED by a source (off-centroid lattice points, both lon/lat and xyz given) are the reference points of that source",
     ]
 
 
